@@ -66,6 +66,7 @@ def _work(idx):
     V.results = {}
     V.covers = {}
     V.unsupported = {}
+    V.backends = {}
     c0, s0 = STATS.checks, STATS.solver_s
     t0 = time.time()
     try:
@@ -83,6 +84,7 @@ def _work(idx):
         'cover': V.covers.get(spec.name), 'unsupported': V.unsupported.get(spec.name),
         'native_only': sorted(V.native_only.get(spec.name, [])),
         'bounded_by_design': bool(spec.opts.get('bounded')),
+        'backends': dict(V.backends),
         'solver_checks': STATS.checks - c0, 'solver_s': round(STATS.solver_s - s0, 3),
         'wall_s': round(time.time() - t0, 3),
     }
@@ -165,6 +167,7 @@ def main(argv=None):
     if a.selfcheck:
         return selfcheck()
     seed = int(os.environ.get('VERIF_SEED', '0') or 0)
+    os.environ['PYVC_TIER'] = a.tier
     if a.replay:
         res = native(['replay', a.replay])
         print(json.dumps(res, indent=1))
@@ -405,7 +408,7 @@ def report(prop, results, ledger, tier, seed, t_start, only_mode=False):
             'explanation': ('every obligation generated from the current /repo sources was discharged by z3'
                             if not undecided else 'some functions fell outside the verifier subset or were undecided; '
                             'see undecided / bounded_standins'),
-            'by_backend': {'z3-5.1.0': n_dis},
+            'by_backend': merge_backends(results, n_dis),
             'solver_s': round(sum(r['solver_s'] for r in results), 3),
             'solver_checks': sum(r['solver_checks'] for r in results),
             'functions_under_contract': source_hashes([r['target'] for r in results]),
@@ -462,6 +465,16 @@ def selfcheck():
     os.makedirs(os.path.join(VERIF, 'evidence'), exist_ok=True)
     os.makedirs(os.path.join(VERIF, 'replays'), exist_ok=True)
     return 0
+
+
+def merge_backends(results, n_dis):
+    """solver calls that refuted a negated goal, by back end (an obligation checked on several paths counts
+    once per path); cvc5-* entries are the thorough tier's second opinion on quantifier-free conditions"""
+    out = {'obligations-discharged': n_dis}
+    for r in results:
+        for k, v in (r.get('backends') or {}).items():
+            out[k] = out.get(k, 0) + v
+    return out
 
 
 def match_known(findings, prop, oid, rp):
